@@ -31,6 +31,10 @@ var stubSigs = []string{
 	"func()", "func(x uint64) uint64", "func(a, b []byte) (n int, ok bool)", "func(p *[4]uint32, s string) (r struct{ a int8; b int64 })",
 	"func(x struct{ a int8; _ [0]int; b int64 }, y [3]complex64)", "func(f func(int) int, m map[string]int, c chan int, i interface{})",
 	"func(xs ...uint32) uint32", "func(a int8, _ int64, c uint16) (uint8, error)", "func(x, y float64) (lo, hi float64)",
+	// wider than a line
+	"func(dst0, dst1, dst2, dst3 []byte, src0, src1, src2, src3 []byte, tab *[256]uint32, n0, n1, n2 uint64, rest ...uint32) (written int, ok bool)",
+	"func(accumulator0, accumulator1, accumulator2, accumulator3, accumulator4, accumulator5 *[8]uint64, multiplicand *[8]uint64, extraTerms ...uint64) uint64",
+	"func(a0, a1, a2, a3, a4, a5, a6, a7, a8, a9, a10, a11, a12, a13, a14, a15, a16, a17, a18, a19, a20, a21, a22, a23 uint64, f func(xs ...int) int) (lo, hi uint64)",
 }
 var stubPragmas = [][]string{{"noescape"}, {"nosplit"}, {"linkname", "localname", "runtime.foo"}, {"norace"}, {"linkname other runtime.bar"}, {"nocheckptr"}}
 var stubDocs = [][]string{{"Sum adds things."}, {"Dot computes x·y.", "", "It is fast."}, {"100% sure: a % b"}, {"line with trailing space "}, {"first\nsecond in one string"}}
